@@ -350,6 +350,25 @@ func ruleSoleWriter(w *World, r *Run, rule string) {
 	implNames := map[string]string{
 		fnSQLSet: "Set", fnMemSet: "Set", fnSQLWriteOps: "WriteOps", fnMemWriteOps: "WriteOps", fnMemExpect: "expectAndWrite",
 	}
+	// write entry points must not escape as function values (a call through a value would bypass the who-may-call rule)
+	writeEntry := map[string]bool{cSet: true, cWriteOps: true, fnSQLSet: true, fnMemSet: true, fnSQLWriteOps: true, fnMemWriteOps: true}
+	for _, fn := range w.prodFns() {
+		for _, b := range fn.Blocks {
+			for _, in := range b.Instrs {
+				mc, ok := in.(*ssa.MakeClosure)
+				if !ok {
+					continue
+				}
+				f := mc.Fn.(*ssa.Function)
+				if !strings.HasSuffix(f.Name(), "$bound") {
+					continue
+				}
+				if obj, ok := f.Object().(*types.Func); ok && writeEntry[obj.FullName()] {
+					r.Fail(rule, short(obj.FullName())+" | not taken as a method value", w.pos(in.Pos()), "a write entry point is turned into a function value in "+short(fn.String())+": calls through it are invisible to the sole-writer rule")
+				}
+			}
+		}
+	}
 	for _, fn := range w.prodFns() {
 		host := outermost(fn)
 		for _, b := range fn.Blocks {
